@@ -28,7 +28,7 @@ func init() {
 			"NOOP (opcode 0) is a defined opcode that is not an instruction of the language; records that decode to a NOOP are not judged",
 			"for damage other than pure truncation the VM is only required not to panic and not to report success past a malformed instruction (earlier instructions may have changed meaning)",
 		},
-		Real:        []string{"vm (decoder, runner, disassembler)", "engine", "state", "cache", "render", "resource"},
+		Real:        []string{"vm (decoder, runner, disassembler)", "engine", "state", "cache", "render", "resource", "dev/disasm (the repository's disassembler executable, run as a process on real files for the long records)"},
 		Stub:        []string{"store handing back the damaged record (application table)", "independent decoder refcodec (oracle)", "client", "external functions"},
 		HangSeconds: 120, // single runs of this check take seconds, more on a loaded machine
 		FaultKinds:  []string{"record_corrupt:truncate", "record_corrupt:replace", "record_corrupt:append"},
